@@ -9,6 +9,7 @@ mod iter;
 mod ng;
 mod parse;
 mod syntax;
+mod search;
 mod sem;
 mod server;
 mod util;
@@ -27,6 +28,7 @@ fn main() {
         "frontend" => frontend::main(&args[2..]),
         "iter" => iter::main(&args[2..]),
         "ng" => ng::main(&args[2..]),
+        "search" => search::main(&args[2..]),
         "server" => server::main(&args[2..]),
         "cli" => cli::main(&args[2..]),
         "compile" => compile::main_compile(&args[2..]),
